@@ -44,6 +44,8 @@ fn transforms() -> Vec<Xf> {
         [1e8, 0., 0., 1., 0., 0.],
         [1., 0., 0., 1e8, 0., 0.],
         [3e7, 0., 0., 1e-3, 0., 0.],
+        // a magnification of 1e10 (determinant 1e20)
+        [1e10, 0., 0., 1e10, 0., 0.],
     ]
 }
 
@@ -124,6 +126,8 @@ fn paths() -> Vec<PathSpec> {
         p(vec![M(0., 0.), Q(1e-8, 1.0, 2e-8, 0.5), L(1e-8, 1.5)]),
         p(vec![M(0., 0.), C(1.0, 1e-8, 2.0, 0.0, 0.5, 2e-8), Z]),
         p(vec![M(0., 0.), Q(3e-8, 900., 6e-8, 100.)]),
+        // a curve in user units of 1e-10 (for the 1e10 magnification)
+        p(vec![M(0., 0.), Q(1e-10, 2e-10, 3e-10, 0.5e-10), C(2e-10, 1e-10, 1e-10, 2e-10, 0., 1e-10)]),
     ]
 }
 
@@ -531,7 +535,7 @@ fn gen_group_into(group: &str, d: usize, out: &mut Sink) {
             }
         }
         "query" => {
-            let tols: Vec<f32> = vec![0.1, 0.01, 1.0, 100.0];
+            let tols: Vec<f32> = vec![0.1, 0.01, 1.0, 100.0, 1e-9, f32::MIN_POSITIVE, 1e-45, f32::MAX, f32::INFINITY];
             let cs = coords(3.0);
             let dims = [ps.len(), tols.len(), cs.len(), cs.len(), xfs.len()];
             for c in choice_vectors(&dims, d.max(2)) {
